@@ -16,6 +16,17 @@ def close(a, b):
     return abs(a - b) <= TOL * m
 
 
+def nums_close(na, nb):
+    """the numbers of two elements agree: each pair within the relative tolerance, or — for an element far from the origin,
+    whose sizes are differences of coordinates an f32 holds to one unit in the last place only — within four such units
+    of the largest coordinate of the element (a rect 11 million units out has a width that is exact to about 1 unit)"""
+    if len(na) != len(nb):
+        return False
+    m = max([abs(v) for v in na] + [abs(v) for v in nb] + [F(1)])
+    slack = m / (1 << 21) if m >= (1 << 20) else F(0)
+    return all(close(x, y) or abs(x - y) <= slack for x, y in zip(na, nb))
+
+
 def elem_key(e, fx, fy, flen, in_group=None):
     """canonical key of a geometry element with coordinates mapped by fx/fy (positions) and flen
     (lengths: radii, widths); numbers are returned separately so that they can be compared with
@@ -61,7 +72,7 @@ def same_multiset(a, b):
     for ka, na in a:
         ok = False
         for j, (kb, nb) in enumerate(b):
-            if not used[j] and ka == kb and len(na) == len(nb) and all(close(x, y) for x, y in zip(na, nb)):
+            if not used[j] and ka == kb and nums_close(na, nb):
                 used[j] = True
                 ok = True
                 break
@@ -73,6 +84,6 @@ def same_multiset(a, b):
 def describe_diff(a, b):
     ka = [k for k, _ in a]
     kb = [k for k, _ in b]
-    only_a = [(k, [str(v) for v in n]) for k, n in a if not any(k == k2 and len(n) == len(n2) and all(close(x, y) for x, y in zip(n, n2)) for k2, n2 in b)]
-    only_b = [(k, [str(v) for v in n]) for k, n in b if not any(k == k2 and len(n) == len(n2) and all(close(x, y) for x, y in zip(n, n2)) for k2, n2 in a)]
+    only_a = [(k, [str(v) for v in n]) for k, n in a if not any(k == k2 and nums_close(n, n2) for k2, n2 in b)]
+    only_b = [(k, [str(v) for v in n]) for k, n in b if not any(k == k2 and nums_close(n, n2) for k2, n2 in a)]
     return {"only_first": repr(only_a[:4]), "only_second": repr(only_b[:4]), "counts": [len(a), len(b)]}
